@@ -103,7 +103,11 @@ static Reg r_search("nn_search", [](const Args& a) {
   D maxdist = std::stoll(a[6]), mindist = std::stoll(a[7]); bool exh = std::stoi(a[8]) != 0; D tol = std::stoll(a[9]); uint64_t qseed = std::stoull(a[10]);
   std::vector<Pt> pts = make_points(kind, seed, n); DistFn df{kind}; Pt q = make_query(kind, qseed, pts);
   NN nn0(pts, df, bucket), nn1; const NN* nn = &nn0;
-  if (via) { copy_via(nn0, nn1, via); nn = &nn1; }
+  if (via) {
+    std::string e = guarded([&] { copy_via(nn0, nn1, via); });
+    if (!e.empty()) { emit("!L"); bad("save-load-roundtrip", "Load threw " + e + " on the image written by Save (via=" + std::to_string(via) + ")"); return; }
+    nn = &nn1;
+  }
   std::vector<int> ind; D ret;
   { Watch w(20); ret = nn->Search(pts, df, q, ind, k, maxdist, mindist, exh, tol); }
   std::vector<D> dq(n); for (int i = 0; i < n; ++i) dq[i] = df(pts[i], q);
@@ -125,7 +129,8 @@ static Reg r_bulk("nn_bulk", [](const Args& a) {
   long searches = 0, fails = 0;
   std::ostringstream t0, b0; nn[0].Save(t0, false); nn[0].Save(b0, true);
   for (int via = 1; via <= 3; ++via) {
-    copy_via(nn[0], nn[via], via);
+    std::string e = guarded([&] { copy_via(nn[0], nn[via], via); });
+    if (!e.empty()) { bad("save-load-roundtrip", "Load threw " + e + " on the image written by Save (via=" + std::to_string(via) + ")"); emit("0 1"); return; }
     std::ostringstream t1, b1; nn[via].Save(t1, false); nn[via].Save(b1, true);
     if (t1.str() != t0.str() || b1.str() != b0.str()) { bad("save-load-roundtrip", "Save(Load(Save(tree))) differs from Save(tree), via=" + std::to_string(via)); ++fails; }
     if (nn[via].NumPoints() != n) { bad("save-load-roundtrip", "NumPoints changed"); ++fails; }
@@ -166,7 +171,8 @@ static Reg r_geo("nn_geo", [](const Args& a) {
   Rng r(seed * 77 + 3); std::vector<Pt> pts;
   for (int i = 0; i < n; ++i) { Pt p{0, 0, r.range(-90, 90), r.range(-180, 180)}; if (r.irange(0, 9) == 0 && i) p = pts[r.next() % pts.size()]; pts.push_back(p); }
   typedef NearestNeighbor<double, Pt, GeoDist> G; GeoDist df; G nn[3]; nn[0].Initialize(pts, df, bucket);
-  copy_via(nn[0], nn[1], 1); copy_via(nn[0], nn[2], 2);
+  { std::string e = guarded([&] { copy_via(nn[0], nn[1], 1); copy_via(nn[0], nn[2], 2); });
+    if (!e.empty()) { bad("save-load-roundtrip", "Load threw " + e + " on the image written by Save (double distances)"); emit("0 1"); return; } }
   long searches = 0, fails = 0;
   // the computed geodesic distance obeys the triangle inequality only to round-off (documented accuracy of GeodesicExact ~ 40 nm worst case):
   // the pruning decisions can therefore differ for distances within that margin; compare the distance lists with 4 x 40 nm
